@@ -169,3 +169,176 @@ class GetGroup(FnSpec):
 
 def add_entrypoints(reg):
     return [GetGroup()]
+
+
+# ---- PluginPkgMeta.for_package: the package record (name, version, repository, plugin list) built from the distribution's metadata ----------------------------
+Grp = S
+NAMES_OF = z3.Function("entry_point_names_listed_for_group", S, z3.SeqSort(S))  # dm.plugins[group]
+HAS_GROUP = z3.Function("distribution_lists_group", S, B)
+Ver = z3.DeclareSort("VersionTuple")
+EPN_NAME = z3.Function("from_ep_name_name", S, S)
+EPN_VER = z3.Function("from_ep_name_version", S, Ver)
+RefS = z3.DeclareSort("PluginRefOfPackage")
+MKREF3 = z3.Function("PluginRef_of_group_name_version", S, S, Ver, RefS)
+REFS = z3.SeqSort(RefS)
+
+
+class RefTok(SVal):
+    def __init__(self, t):
+        self.t = t
+
+
+class GroupList(SVal):
+    """plugins[group]: a python list of references, filled by append"""
+
+    def __init__(self, group_t):
+        self.group_t = group_t
+        self.t = z3.Empty(REFS)
+
+    def meth_append(self, cx, r):
+        if not isinstance(r, RefTok):
+            raise Unsupported("append of something else than a reference")
+        self.t = z3.Concat(self.t, z3.Unit(r.t))
+
+    def havoc_inplace(self, cx, hint="gl"):
+        self.t = z3.Const(fresh_name(hint), REFS)
+
+
+class PluginsDict(SVal):
+    def __init__(self):
+        self.lists = []  # GroupList objects created by this call (python-level; one per executed outer iteration)
+
+    def py_setitem(self, cx, g, v):
+        if not (isinstance(v, list) and not v) or not isinstance(g, SStr):
+            raise Unsupported("plugins[group] = something else than a new empty list")
+        self.lists.append(GroupList(g.t))
+
+    def py_getitem(self, cx, g):
+        for gl in reversed(self.lists):
+            if z3.eq(gl.group_t, g.t):
+                return gl
+        raise Unsupported("plugins[group] of a group not set in this iteration")
+
+
+class ForPackage(FnSpec):
+    file = "schema/plugins.py"
+    qual = "PluginPkgMeta.for_package"
+    props = ("C20", "C16")
+
+    def init(self):
+        self.bindings["distribution"] = lambda cx, n: ("distribution-of", n)
+        self.bindings["EPName"] = lambda cx, x: x
+        self.bindings["from_ep_name"] = lambda cx, e: (SStr(EPN_NAME(e.t)), VerV(EPN_VER(e.t)))
+        self.bindings["PluginRef"] = lambda cx, **kw: RefTok(MKREF3(kw["group"].t, kw["name"].t, kw["version"].t)) if set(kw) == {"group", "name", "version"} else (_ for _ in ()).throw(Unsupported("PluginRef with other arguments"))
+
+        class DM(SVal):
+            def py_getattr(s, cx, n):
+                if n == "plugins":
+                    return DmPlugins()
+                if n in ("name", "version", "repository_url"):
+                    return ("dm", n)
+                raise Unsupported("DistMeta attribute " + n)
+
+        class DmPlugins(SVal):
+            def meth_items(s, cx):
+                class _It(SVal):
+                    def py_iter_schema(s2, cx2):
+                        from pyvc.containers import SetIter
+                        from pyvc.values import STuple
+
+                        g = z3.String(fresh_name("g"))
+                        return SetIter(STR, z3.Lambda([g], HAS_GROUP(g)), lambda gt: STuple((SStr(gt), NameList(gt))))
+
+                return _It()
+
+        self.bindings["distmeta_for"] = lambda cx, d: (cx.effect("distmeta_for", d), DM())[1]
+
+        def inner_inv(cx, env, it):
+            a = cx.ghost["fp"]
+            gl = a.pl.lists[-1] if a.pl.lists else None
+            names = env["ep_names"]
+            if gl is None or not isinstance(names, NameList):
+                return [("filling-the-list-of-this-group", z3.BoolVal(False))]
+            cx.assume(z3.And(REFS_OF(names.t, gl.group_t, 0) == z3.Empty(REFS), z3.Implies(z3.And(it.i >= 0, it.i < z3.Length(names.t)), REFS_OF(names.t, gl.group_t, it.i + 1) == z3.Concat(REFS_OF(names.t, gl.group_t, it.i), z3.Unit(MKREF3(gl.group_t, EPN_NAME(names.t[it.i]), EPN_VER(names.t[it.i])))))))
+            return [("references-for-the-names-so-far-in-order", gl.t == REFS_OF(names.t, gl.group_t, it.i))]
+
+        def inner_havoc(cx):
+            a = cx.ghost["fp"]
+            if a.pl.lists:
+                a.pl.lists[-1].havoc_inplace(cx)
+
+        li = LoopSpec(inner_inv, modifies=["ep_name", "name", "version", "ref"])
+        li.on_havoc = inner_havoc
+        self.loops[("iter", "ep_names")] = li
+
+        def outer_inv(cx, env, it):
+            a = cx.ghost["fp"]
+            a.outer_calls += 1
+            out = []
+            if a.outer_calls == 3:  # after one arbitrary iteration: exactly one list was made, for this group, complete
+                new = a.pl.lists[a.lists0 :]
+                g = it.cur if it.cur is not None else None
+                ok = len(new) == 1
+                out.append(("one-list-per-group-holding-all-its-references-in-order", z3.BoolVal(False) if not ok else z3.And(new[0].group_t == g, new[0].t == REFS_OF(NAMES_OF(g), g, z3.Length(NAMES_OF(g))))))
+            return out
+
+        def outer_havoc(cx):
+            a = cx.ghost["fp"]
+            a.lists0 = len(a.pl.lists)
+
+        lo = LoopSpec(outer_inv, modifies=["group", "ep_names"])
+        lo.on_havoc = outer_havoc
+        self.loops[("iter", "dm.plugins.items()")] = lo
+
+    def empty_container(self, cx, name, ann):
+        if name == "plugins":
+            return cx.ghost["fp"].pl
+        return None
+
+    def setup(self, cx):
+        class Cls(SVal):
+            def py_call(s, cx2, **kw):
+                return ("PluginPkgMeta", kw)
+
+        a = A(cls=Cls(), package_name="the-package")
+        a.pl, a.outer_calls, a.lists0 = PluginsDict(), 0, 0
+        cx.ghost["fp"] = a
+        return a
+
+    def raises(self, cx, a):
+        return {}
+
+    def ensures(self, cx, a, res):
+        dm = [e[:-1] for e in cx.fx if e[0] == "distmeta_for"]
+        ok = isinstance(res, tuple) and res[0] == "PluginPkgMeta" and set(res[1]) == {"name", "version", "repository_url", "plugins"} and all(res[1][k] == ("dm", k) for k in ("name", "version", "repository_url")) and res[1]["plugins"] is a.pl and dm == [("distmeta_for", ("distribution-of", "the-package"))]
+        return [("record-of-exactly-that-distribution", z3.BoolVal(bool(ok)), "name, version and repository are those of the installed distribution of that name; the plugin lists are the ones built per group (loop contract: one list per group, a reference (group, name, version from the entry point name) for every listed entry point, in order)")]
+
+
+REFS_OF = z3.Function("references_for_the_first_k_names", z3.SeqSort(S), S, I, REFS)  # definition: [] for k = 0; (k) ++ [PluginRef(group, from_ep_name(names[k]))] for k+1
+
+
+class NameList(SVal):
+    def __init__(self, group_t):
+        self.group_t = group_t
+        self.t = NAMES_OF(group_t)
+
+    @property
+    def n(self):
+        return z3.Length(self.t)
+
+    def at(self, i):
+        return SStr(self.t[i])
+
+    def py_iter_schema(self, cx):
+        from pyvc.containers import SeqIter
+
+        return SeqIter(self)
+
+
+class VerV(SVal):
+    def __init__(self, t):
+        self.t = t
+
+
+def add_for_package(reg):
+    return [ForPackage()]
